@@ -9,7 +9,7 @@
    5. C04: the tamper theorems of Model/TamperFacts.v transferred to the validating reader. *)
 From Coq Require Import String List NArith ZArith Bool Lia.
 From ACH Require Import Arith TamperFacts ArithFacts.
-From ACH Require Import ReaderValid ReaderValidFacts ReaderValidCanon LayoutFacts LayoutRoundtrip FramingFacts DispatchFacts DispatchBytes.
+From ACH Require Import ReaderValid ReaderValidFacts ReaderValidCanon ReaderValidProj LayoutFacts LayoutRoundtrip FramingFacts DispatchFacts DispatchBytes.
 From ACH Require C04Obl.
 From ACH Require Import Layouts RecRules Tables ReaderValidSites C01Obl C01FileEx C01FileObl.
 Import ListNotations.
@@ -81,6 +81,36 @@ Theorem c01_valid_roundtrip f k :
   batches_okb AT (parsed_file LT f) = true ->
   read_file_valid LT RT AT (write_file LT f ++ repeat nines k) = Some (parsed_file LT f, false).
 Proof. exact (valid_roundtrip LT all_layouts_ok RT AT f k). Qed.
+
+(* the arithmetic hypothesis on the file as it is written *)
+Theorem c01_valid_roundtrip_orig f k :
+  all_file (rec_fitsb LT) f = true -> dispatchb LT f = true ->
+  all_file (rec_passb RT) f = true -> all_file (rec_keepsb LT RT) f = true ->
+  proj_keepsb LT f = true -> batches_okb AT f = true ->
+  read_file_valid LT RT AT (write_file LT f ++ repeat nines k) = Some (parsed_file LT f, false).
+Proof.
+  intros Hfit Hd Hv Hk Hp Hb. apply c01_valid_roundtrip; auto. now rewrite (batches_okb_kept LT AT f Hp).
+Qed.
+
+Theorem c01_batches_okb_kept f : proj_keepsb LT f = true -> batches_okb AT (parsed_file LT f) = batches_okb AT f.
+Proof. apply batches_okb_kept. Qed.
+
+(* [proj_keepsb] from canonical values: the protected fields of the batch header, entry and batch control
+   layouts are written by simple segments and read back from their own columns *)
+Lemma proj_roles_simple :
+  role_simple L_BatchHeader hdr_str_fields hdr_int_fields = true
+  /\ role_simple L_IATBatchHeader hdr_str_fields hdr_int_fields = true
+  /\ role_simple L_EntryDetail (entry_str_fields KStd) entry_int_fields = true
+  /\ role_simple L_IATEntryDetail (entry_str_fields KIAT) entry_int_fields = true
+  /\ role_simple L_ADVEntryDetail (entry_str_fields KADV) entry_int_fields = true
+  /\ role_simple L_BatchControl ctl_str_fields ctl_int_fields = true
+  /\ role_simple L_ADVBatchControl ctl_str_fields ctl_int_fields = true.
+Proof. vm_compute. repeat split; reflexivity. Qed.
+
+Theorem c01_canon_fields_kept x L ss is_ :
+  layout_of LT (r_kind x) = Some L -> role_simple L ss is_ = true ->
+  fitsb L (r_val x) = true -> canonb L (r_val x) = true -> fields_keptb LT ss is_ x = true.
+Proof. exact (canon_fields_kept LT x L ss is_ all_layouts_ok). Qed.
 
 Theorem c01_valid_roundtrip_padded f :
   all_file (rec_fitsb LT) f = true -> dispatchb LT f = true ->
@@ -192,6 +222,12 @@ Qed.
 Definition vhyps (f : fileR) : bool :=
   all_file (rec_fitsb LT) f && dispatchb LT f && all_file (rec_passb RT) f && all_file (rec_keepsb LT RT) f
   && batches_okb AT (parsed_file LT f) && all_file (rec_no_nl LT) f.
+
+(* ... and the hypotheses of the statement on the file as written *)
+Lemma ex_orig_hyps :
+  proj_keepsb LT ex_std && batches_okb AT ex_std && proj_keepsb LT ex_ret && batches_okb AT ex_ret
+  && proj_keepsb LT ex_iat && batches_okb AT ex_iat && proj_keepsb LT ex_adv && batches_okb AT ex_adv = true.
+Proof. vm_compute. reflexivity. Qed.
 
 Lemma ex_std_vhyps : vhyps ex_std = true.  Proof. vm_compute. reflexivity. Qed.
 Lemma ex_ret_vhyps : vhyps ex_ret = true.  Proof. vm_compute. reflexivity. Qed.
